@@ -7,6 +7,8 @@
 //! * `emf`    — scripted EMF entries, concretisation tables, formatter construction, output projection
 //! * `json`   — strict RFC 8259 parser that reports duplicate members (judge for EMF output)
 //! * `util`   — seeded RNG helpers, argument parsing
+//! * `emfkinds` — catalogue of EMF entry kinds / formatter configurations of spec/emf/EmfHistory.tla,
+//!              scripted RNG, failing writer, canonical comparison of formatter output (C14, C16)
 
 pub mod emfkinds;
 pub mod emf;
